@@ -142,6 +142,7 @@ func checkC02(c *Ctx) {
 	r.Rule("R02.2", "complete publication: at every owner release the (val, err) pair visible to waiters is (legit value, nil) or (·, non-nil error)", 2)
 	r.Rule("R02.3", "key threading: every keyed call-out uses this invocation's key (or a private copy of it)", 2)
 	r.Rule("R02.4", "errors have a source: backend, builder, failure cache, refresh write, or the owner's published error", 2)
+	r.Rule("R02.6", "the backend Get reads from and writes to is the configured one (a default one only when none was configured)", 2)
 	r.Rule("R02.5", "the default backends keep keys apart: Write stores a private copy of the key it was given; a hash hit is confirmed by the full key", 6)
 	r.Assumptions = []string{
 		"a backend Read that returns a non-nil error returns no usable value (checked for in-module backends by C07 rules)",
@@ -177,6 +178,8 @@ func checkC02(c *Ctx) {
 			c.borrowKinds("C01", func() { c.c01Sibling(fo) }, "R02.2", sib+".Get:key-lock-entry", []string{"R01.2"}, "insert-not-fresh-entry")
 		}
 	}
+	// R02.6: "a value found in the backend": the backend is the one the Failover was configured with
+	c.c04CtorWiring("R02.6", true)
 }
 
 // c02NoRecover: a recover() in the frontend turns a panicking builder into a return of whatever the results hold — for
